@@ -16,6 +16,8 @@ import numpy as np
 import vlib
 from vlib import Result, enc_list, f2b, Toks, close
 
+vlib.use_repo()          # `import kawin` below resolves to the tree under test ($VERIF_REPO), also in --replay
+
 PROP = 'C19'
 META = {
     'level_text': 'Lean 4 theorems, for any linearly ordered field and histories of every length, about an executable model of PrecipitationStoppingCondition (latch, _poll, testCondition), the and/or combination of KWNBase.postProcess, the DESolver loop, KWNBase.reset and TTPCalculator._getStopTime: latch (flag and reported time never change once satisfied), satisfied iff the monitored value was beyond the threshold on a tested row, reported time = linear interpolant and inside [t_prev, t_cur] for both inequalities, first-step case, stop iff (some or-condition satisfied) or (#and > 0 and all and-conditions satisfied), the loop ends at the first step with stop and otherwise at the first row at or beyond the end time (soundness and completeness), _poll reads row n / column phase-or-element of the named array for all six quantities, reset clears every latch and TTP times depend only on that temperature\'s run. The model is tied to the code on every run by differential correspondence (condition objects on stubs, scripted histories through the real solve/postProcess/reset/TTPCalculator, a real binary Al-Zr run) and the property predicates are evaluated directly on pData histories and condition objects.',
@@ -655,22 +657,26 @@ def oracle_ttp(res, desc, conds, snaps, table, tag):
         res.count(tag + ':temperatures')
 
 
-def part_ttp_synth(ctx, res, N, oracle_only):
-    vlib.use_repo()
+def drive_ttp_synth(c):
     from kawin.precipitation.TimeTemperaturePrecipitation import TTPCalculator
+    M = synth_class()(c['phases'], c['elements'], lambda T, c=c: c['Hs'][round(float(T), 6)])
+    objs = [make_cond(k['q'], k['d'], k['value'], k['sel']) for k in c['conds']]
+    exc = None; pool = SnapPool(M, objs); table = None
+    try:
+        ttp = TTPCalculator(M, objs)
+        ttp.calculateTTP(float(c['temps'][0]), float(c['temps'][-1]), len(c['temps']), c['maxTime'], pool=pool)
+        table = np.array(ttp.transformationTimes)
+    except Exception as e:
+        import traceback
+        exc = (type(e).__name__, str(e)[:200], traceback.format_exc()[-600:])
+    return pool, table, exc
+
+
+def part_ttp_synth(ctx, res, N, oracle_only):
     lines, recs = [], []
     for _ in range(N):
         c = ttp_synth_case(ctx.rng.getrandbits(40))
-        M = synth_class()(c['phases'], c['elements'], lambda T, c=c: c['Hs'][round(float(T), 6)])
-        objs = [make_cond(k['q'], k['d'], k['value'], k['sel']) for k in c['conds']]
-        exc = None; pool = SnapPool(M, objs); table = None
-        try:
-            ttp = TTPCalculator(M, objs)
-            ttp.calculateTTP(float(c['temps'][0]), float(c['temps'][-1]), len(c['temps']), c['maxTime'], pool=pool)
-            table = np.array(ttp.transformationTimes)
-        except Exception as e:
-            import traceback
-            exc = (type(e).__name__, str(e)[:200], traceback.format_exc()[-600:])
+        pool, table, exc = drive_ttp_synth(c)
         recs.append((c, pool.snaps, table, exc))
         if exc is None:
             nm = enc_names(c['phases'], c['elements'])
@@ -750,6 +756,16 @@ def real_case(s, variant):
         keys = [str(k) for k in r.choice(['vf>', 'R>', 'dG<', 'nuc>', 'dens>', 'x<'], size=int(r.integers(2, 5)), replace=False)]
         conds = [dict(real_menu(r, k), mode=('or' if i == 0 or r.random() < 0.5 else 'and')) for i, k in enumerate(keys)]
         sim = 5 * 3600.0
+    elif variant == 'never':      # thresholds out of reach (plus one reachable and-condition): must run to the end time
+        never = {'vf>': 0.5, 'R>': 1e-6, 'dG<': 1e3, 'nuc>': 1e30, 'dens>': 1e30, 'x<': 1e-6}
+        keys = [str(k) for k in r.choice(list(never), size=int(r.integers(2, 5)), replace=False)]
+        conds = [dict(real_menu(r, k), mode=('or' if r.random() < 0.6 else 'and')) for k in keys]
+        for k, cd in zip(keys, conds):
+            cd['value'] = never[k]
+        conds.append(dict(real_menu(r, 'nuc>'), mode='and'))
+        if not any(cd['mode'] == 'and' and cd['value'] in never.values() for cd in conds):
+            conds[0]['mode'] = 'and'          # the reachable and-condition alone must not stop the run
+        sim = float(r.choice([120.0, 300.0]))
     else:                         # anything, including conditions that hold in the initial state
         allk = ['vf>', 'R>', 'dG<', 'nuc>', 'dens>', 'x<', 'nuc<', 'dens<', 'dG>', 'x>', 'vf<', 'R<']
         keys = [str(k) for k in r.choice(allk, size=int(r.integers(1, 5)), replace=False)]
@@ -904,10 +920,10 @@ def corr(ctx, oracle_only=False, scale=1):
     part_synth(ctx, res, ctx.n(250, 6000) * scale, oracle_only)
     part_ttp_synth(ctx, res, ctx.n(40, 800) * scale, oracle_only)
     if ctx.thorough:
-        part_real(ctx, res, ['all-and', 'or-mix'] + ['any'] * 10 + ['or-mix'] * 4, oracle_only)
+        part_real(ctx, res, ['all-and', 'or-mix', 'never', 'never'] + ['any'] * 10 + ['or-mix'] * 4, oracle_only)
         part_ttp_real(ctx, res, oracle_only)
     else:
-        part_real(ctx, res, ['all-and', 'or-mix', 'any'], oracle_only)
+        part_real(ctx, res, ['all-and', 'or-mix', 'any', 'never'], oracle_only)
     res.monitored = list(MONITORED)
     return res
 
@@ -935,6 +951,12 @@ def replay(ctx, entry):
             r.violate('run-with-condition-raises-' + exc[0], exc[1], real_desc(c))
         else:
             oracle_segment(r, 'real-', real_desc(c), c['conds'], seg, 'real')
+    elif kind == 'ttp-synth':
+        c = ttp_synth_case(s); pool, table, exc = drive_ttp_synth(c)
+        if exc is not None:
+            r.violate('ttp-raises-' + exc[0], exc[1], ttp_desc(c))
+        else:
+            oracle_ttp(r, ttp_desc(c), c['conds'], pool.snaps, table, 'ttp-synth')
     else:
         ctx.driver_ok = False
         r = corr(ctx, oracle_only=True)
